@@ -4,8 +4,8 @@ import numpy as np
 from common import Fr, enc_q, dec_q, same_q, rng
 
 LEAN_MODULE = 'PGM.Properties.C15'
-LEAN_EXTRA = ['PGM.Properties.C15G']
-TRANSLATORS = ('py2dom',)      # src/mbi/domain.py -> PGM/Generated/DomainG.lean, proved equal to the hand model in C15G
+LEAN_EXTRA = ['PGM.Properties.C15G', 'PGM.Properties.C15D']
+TRANSLATORS = ('py2dom', 'py2ds')      # domain.py -> DomainG.lean (C15G), dataset.py -> DatasetG.lean (C15D), each proved equal to the hand model
 TRUSTED = ['Lean 4.33 kernel', 'axioms: propext, Classical.choice, Quot.sound',
            'numpy.histogramdd bin contract (edges 0..n, last bin right-closed) as modelled in PGM/Model/Dataset.lean, exercised per run',
            'pandas column selection by name (df.loc[:, cols])',
